@@ -294,6 +294,9 @@ class CliT:
         self._log('disconnect', reason=reason)
         if self.on_disconnect:
             self.on_disconnect(reason)
+        if getattr(self, 'raising_disconnect', False):
+            # an application bug inside the handler
+            raise RuntimeError('disconnect handler failed')
 
     # --- driver-side helpers: every API call runs in its own task ---------
     def call(self, name, *args, **kwargs):
@@ -533,6 +536,8 @@ class CliA:
             self._log('disconnect', reason=reason)
             if self.on_disconnect:
                 await self.on_disconnect(reason)
+            if getattr(self, 'raising_disconnect', False):
+                raise RuntimeError('disconnect handler failed')
         async def hd_legacy():
             await hd('?legacy')
 
@@ -546,9 +551,11 @@ class CliA:
 
         def phd(reason):
             self._log('disconnect', reason=reason)
+            if getattr(self, 'raising_disconnect', False):
+                raise RuntimeError('disconnect handler failed')
 
         def phd_legacy():
-            self._log('disconnect', reason='?legacy')
+            phd('?legacy')
         if plain:
             self.c.on('connect', phc)
             self.c.on('message', phm)
